@@ -205,6 +205,51 @@ func checkC02(c C02Case, r *Rec) *Violation {
 		}
 	}
 
+	// (g) every path: for a program with up to five bound boolean variables ALL their assignments are
+	// run (the other variables keep their values) - a stale stack slot or a wrong jump target shows on
+	// one particular path through the and/or/if structure, which one binding per case rarely takes. Every
+	// configuration must do what its own dump does (result and effects, operator state threaded through),
+	// and rules (b), (c) and (a) hold for every assignment.
+	if bools := boundBools(u); len(bools) >= 1 && len(bools) <= 5 && !c.RawConst {
+		for asg := 0; asg < 1<<len(bools); asg++ {
+			u2 := *u
+			u2.Vars = append([]VarDecl{}, u.Vars...)
+			same := true
+			for k, idx := range bools {
+				b := asg&(1<<k) != 0
+				if u2.Vars[idx].Val.X.(bool) != b {
+					same = false
+				}
+				u2.Vars[idx].Val = m.V{X: b}
+			}
+			if same {
+				continue // the binding of the case: done above
+			}
+			rv2, rerr2 := (&m.Env{Vars: u2.Bound(), Fail: u2.Fail(), Custom: customModel()}).Eval(c.Tree)
+			ev2, eagerOK2 := (&m.Env{Vars: u2.Bound(), Fail: u2.Fail(), Custom: customModel()}).EvalEager(c.Tree)
+			var outs [16]Outcome
+			for mask := 0; mask < 16; mask++ {
+				o, v := runs[mask].againOut("C02 (all assignments of the boolean variables)", src, &u2, 2+asg, false)
+				if v != nil {
+					return v
+				}
+				outs[mask] = o
+				if eagerOK2 && !(o.Err == nil && m.EqualVal(o.Val, ev2)) {
+					return Violf("C02: every reachable operand succeeds, yet configuration %s does not return the value\n%s\nengine=%v\nexpected=%s", maskName(mask), runs[mask].describe(src, &u2), o, refString(ev2, nil))
+				}
+				if mask&MaskReorder == 0 && rerr2 == nil && !(o.Err == nil && m.EqualVal(o.Val, rv2)) {
+					return Violf("C02: Reordering is off and left-to-right evaluation succeeds, yet configuration %s differs\n%s\nengine=%v\nunoptimized reference=%s", maskName(mask), runs[mask].describe(src, &u2), o, refString(rv2, nil))
+				}
+				for m2 := 0; m2 < mask; m2++ {
+					if o.Err == nil && outs[m2].Err == nil && !m.EqualVal(o.Val, outs[m2].Val) {
+						return Violf("C02: configurations %s and %s both return a value but not the same\nsrc=%s\nbinding=%v\n%s -> %v\n%s\n%s -> %v\n%s", maskName(mask), maskName(m2), src, describeU(&u2), maskName(mask), o, runs[mask].Dump, maskName(m2), outs[m2], runs[m2].Dump)
+					}
+				}
+			}
+		}
+		r.Class(fmt.Sprintf("all-assignments-of-%d-boolean-variables", len(bools)))
+	}
+
 	// (f) a fetcher that hands integers over as Go int: whatever the engine makes of such values
 	// (only eq/ne accept them), it makes the same of them in every configuration
 	if c.RawVars {
@@ -265,7 +310,7 @@ func checkC02(c C02Case, r *Rec) *Violation {
 
 var propC02 = Prop[C02Case]{
 	ID:    "C02",
-	Rule:  "typed random expression (all variables bound, failures from operators only) x cost map (incl. NaN/Inf/huge/negative) compiled under all 16 optimization subsets, each expressed in several ways (full map, sparse map, Optimizations option, ;;;; directives in 8 spellings (two of them say the opposite first and rely on the later directive winning), the directive over a config that says the opposite, options set on a CopyConfig / ExtendConf copy of a config that says the opposite); oracles: pairwise equal values, R_eager value everywhere, R value without Reordering, identical Dump/DumpTable across the four ways, outcome = R/R_fast on the configuration's own Dump. Whole-run bracket: 30 canary cases x 16 subsets give the same programs and outcomes before the first and after the last case of the shard. Non-trivial = at least two of the 16 dumps differ from the unoptimized dump; distinct by source + binding + costs",
+	Rule:  "typed random expression (all variables bound, failures from operators only) x cost map (incl. NaN/Inf/huge/negative) compiled under all 16 optimization subsets, each expressed in several ways (full map, sparse map, Optimizations option, ;;;; directives in 8 spellings (two of them say the opposite first and rely on the later directive winning), the directive over a config that says the opposite, options set on a CopyConfig / ExtendConf copy of a config that says the opposite); oracles: pairwise equal values, R_eager value everywhere, R value without Reordering, identical Dump/DumpTable across the four ways, outcome = R/R_fast on the configuration's own Dump. Whole-run bracket: 30 canary cases x 16 subsets give the same programs and outcomes before the first and after the last case of the shard. (g) for programs with 1..5 bound boolean variables ALL their assignments are run through all 16 compiled programs (every path through the and/or/if structure): result and effects of each = the reference on its own dump, and (a)-(c) hold for every assignment. Non-trivial = at least two of the 16 dumps differ from the unoptimized dump; distinct by source + binding + costs",
 	Gen:   genC02,
 	Check: checkC02,
 }
@@ -295,3 +340,14 @@ func init() {
 
 func TestC02(t *testing.T)       { Run(t, propC02) }
 func TestC02Replay(t *testing.T) { Replay(t, propC02) }
+
+// boundBools: indexes of the universe's bound boolean variables.
+func boundBools(u *Universe) []int {
+	var out []int
+	for i, v := range u.Vars {
+		if _, ok := v.Val.X.(bool); ok && v.Mode == 0 && v.Ty == m.TBool {
+			out = append(out, i)
+		}
+	}
+	return out
+}
